@@ -269,3 +269,66 @@ Qed.
 Theorem snap_gop_off : forall l,
   spec_snap false l = opt_list (last_of 5 l) ++ opt_list (last_of 3 l) ++ opt_list (last_of 4 l).
 Proof. intros l. unfold spec_snap. rewrite !app_nil_r. reflexivity. Qed.
+
+(* ---------- the cache goes by arrival order and packet kind only ---------- *)
+
+(* A packet of the model is (identity, kind); the identity stands for everything else the real packet
+   carries: payload bytes, sequence number, RTP / FLV TIMESTAMP.  The cache commutes with every
+   relabelling [f] of the packets that keeps their kinds — in particular with replacing one
+   timestamp assignment by another: which POSITIONS of the packet list are replayed does not depend
+   on the timestamps (monotone, wrapped past 2^32, decreasing, equal ...). *)
+Definition rc_map (f : pkt -> pkt) (c : rcache) : rcache :=
+  {| rc_gopon := rc_gopon c; rc_vps := option_map f (rc_vps c); rc_sps := option_map f (rc_sps c);
+     rc_pps := option_map f (rc_pps c); rc_gop := map f (rc_gop c) |}.
+
+Lemma rc_add_map : forall f, (forall p, p_kind (f p) = p_kind p) ->
+  forall c p, rc_add (rc_map f c) (f p) = rc_map f (rc_add c p).
+Proof.
+  intros f Hf c p.
+  destruct (Z.eq_dec (p_kind p) 0) as [K0|K0]; [unfold rc_add; rewrite Hf, K0; reflexivity|].
+  destruct (Z.eq_dec (p_kind p) 5) as [K5|K5]; [unfold rc_add; rewrite Hf, K5; reflexivity|].
+  destruct (Z.eq_dec (p_kind p) 3) as [K3|K3]; [unfold rc_add; rewrite Hf, K3; reflexivity|].
+  destruct (Z.eq_dec (p_kind p) 4) as [K4|K4]; [unfold rc_add; rewrite Hf, K4; reflexivity|].
+  rewrite !rc_add_other by (rewrite ?Hf; assumption).
+  unfold rc_add_media, p_key. rewrite Hf. cbn [rc_map rc_gopon rc_gop].
+  destruct (rc_gopon c); [|reflexivity].
+  destruct (p_kind p =? 2); [reflexivity|].
+  destruct (rc_gop c) as [|g gs]; cbn [map]; [reflexivity|].
+  unfold rc_map. cbn. rewrite map_app. reflexivity.
+Qed.
+
+Lemma rc_fold_map : forall f, (forall p, p_kind (f p) = p_kind p) ->
+  forall l c, fold_left rc_add (map f l) (rc_map f c) = rc_map f (fold_left rc_add l c).
+Proof.
+  intros f Hf. induction l as [|p l IH]; intros c; [reflexivity|].
+  cbn [map fold_left]. rewrite rc_add_map by exact Hf. apply IH.
+Qed.
+
+Lemma rc_snap_map : forall f c, rc_snap (rc_map f c) = map f (rc_snap c).
+Proof.
+  intros f c. unfold rc_snap, rc_map. cbn. rewrite !map_app.
+  destruct (rc_vps c), (rc_sps c), (rc_pps c), (rc_gopon c); reflexivity.
+Qed.
+
+Theorem cache_commutes_with_relabelling : forall f, (forall p, p_kind (f p) = p_kind p) ->
+  forall gopon l,
+  rc_snap (fold_left rc_add (map f l) (rc_empty gopon)) = map f (rc_snap (fold_left rc_add l (rc_empty gopon))).
+Proof.
+  intros f Hf gopon l. change (rc_empty gopon) with (rc_map f (rc_empty gopon)) at 1.
+  rewrite rc_fold_map by exact Hf. apply rc_snap_map.
+Qed.
+
+(* two timestamp assignments of the same packet list = two kind-preserving relabellings f1, f2 of it
+   (the identity of a model packet stands for all its other attributes, the timestamp included):
+   both snapshots are the SAME selection [sel] of the list — the specification of part A — each in
+   its own labelling: they agree up to the timestamps themselves *)
+Theorem cache_ignores_timestamps : forall f1 f2,
+  (forall p, p_kind (f1 p) = p_kind p) -> (forall p, p_kind (f2 p) = p_kind p) ->
+  forall gopon l,
+  let sel := spec_snap gopon l in
+  rc_snap (fold_left rc_add (map f1 l) (rc_empty gopon)) = map f1 sel /\
+  rc_snap (fold_left rc_add (map f2 l) (rc_empty gopon)) = map f2 sel.
+Proof.
+  intros f1 f2 H1 H2 gopon l sel. unfold sel. rewrite <- cache_is_spec.
+  split; apply cache_commutes_with_relabelling; assumption.
+Qed.
